@@ -199,6 +199,50 @@ def run(res, tier):
             ok = True
     res.ob('UNIQUE-AGREE', g.where(), 'DoDirectChildLookup looks up RemoveEscapeChars(key)', ok, function=g.q, key='UNIQUE-AGREE|%s|unescape' % g.q,
            message='the literal lookup no longer unescapes the pattern: an escaped literal such as `a\\*b` never finds the child named `a*b`')
+    # ---- ONCE (b): the de-duplication table of the direct-lookup traversal spans all patterns of the Message
+    from msa import cfg as C_
+    f = fx.fn1(SRS + '::NodePathMatcher::DoTraversalAux')
+    tabs = [v for v in f.walk() if v['k'] == 'VarDecl' and 'Hashtable<muscle::DataNode *' in v.type()]
+    used = []
+    for v in tabs:
+        ms = set((c.get('q') or '').split('::')[-1] for c in f.walk() if c['k'] == 'CXXMemberCallExpr' and c.receiver() is not None and A.strip_casts(c.receiver()).get('d') == v['d'])
+        passed = [c for c in f.walk() if c.is_call() and any(A.strip_casts(a).get('d') == v['d'] for a in c.args())]      # handed (by reference) to DoDirectChildLookup, which tests and fills it
+        if (ms & set(['ContainsKey', 'Get', 'GetWithDefault']) and ms & set(['PutWithDefault', 'Put'])) or passed:
+            used.append(v)
+    if not used:
+        raise AnalysisBroken('ONCE: the already-visited table of DoTraversalAux was not found')
+    loops = C_.natural_loops(f)
+    for v in used:
+        vp = f.pos(v['i'])
+        inloop = vp is not None and any(vp[0] in body for (h, body) in loops)
+        res.ob('ONCE', f.where(v), 'DoTraversalAux: the already-visited table `%s` is declared outside every loop (one table for all patterns of the Message)' % v.get('n'), not inloop, function=f.q,
+               key='ONCE|%s|dedupe-scope' % f.q,
+               message='DoTraversalAux: the already-visited table `%s` is re-created inside a loop: a child named by two patterns of the same Message is traversed once per pattern, so its owner '
+                       'receives the Message more than once' % v.get('n'))
+    # ---- GUARD (b): RemoveParameter compares paramName (which may alias the field name stored inside _parameters) before it removes the field
+    f = fx.fn1(SRS + '::RemoveParameter')
+    pn = f.params[0]['d']
+    rms = [c for c in f.walk() if c['k'] == 'CXXMemberCallExpr' and (c.get('q') or '').endswith('::RemoveName') and c.receiver() is not None and A.strip_casts(c.receiver()).get('n') == '_parameters'
+           and c.args() and A.strip_casts(c.args()[0]).get('d') == pn]
+    clr = [c for c in f.walk() if c.is_call() and any(x.get('n') == 'MUSCLE_ROUTING_FLAG_REFLECT_TO_SELF' for x in c.walk())]
+    if not rms or not clr:
+        raise AnalysisBroken('GUARD: RemoveParameter: _parameters.RemoveName(paramName) / the reset of MUSCLE_ROUTING_FLAG_REFLECT_TO_SELF not found')
+    bad = None
+    for rm in rms:
+        rp = P.pos_of(f, rm)
+        for u in f.walk():
+            if u['k'] == 'DeclRefExpr' and u.get('d') == pn and not any(a is rm for a in u.ancestors()):
+                up = P.pos_of(f, u)
+                if rp and up and ((rp[0] == up[0] and rp[1] < up[1]) or C_.can_reach(f, rp, set([up]))):
+                    bad = (rm, u)
+    res.ob('GUARD', f.where(), 'RemoveParameter removes the field from _parameters only after its last use of paramName', bad is None, function=f.q, key='GUARD|%s|remove-last' % f.q,
+           how='RemoveName(paramName) at line %s; no later use of paramName' % rms[0].get('l'),
+           message='RemoveParameter: paramName is used at line %s after _parameters.RemoveName(paramName) (line %s); when the caller passes the field-name String that lives inside _parameters '
+                   '(wildcard REMOVEPARAMETERS) the removal clears it, every later comparison fails and e.g. the reflect-to-self flag is never switched off' % ((bad[1].get('l'), bad[0].get('l')) if bad else ('?', '?')))
+    from . import sm_state
+    fsm = common.load_units(res, ['regex/StringMatcher.cpp'], fn_regex=r'^muscle::StringMatcher::')
+    res.units = res.units + ['reflector/StorageReflectSession.cpp', 'reflector/DumbReflectSession.cpp', 'reflector/AbstractReflectSession.cpp']
+    sm_state.ranges_reset_rule(res, fsm)     # the per-clause matchers of a routing path are recycled objects: a stale numeric range misroutes every later Message
     res.explanation = ('Static decision of the routing structure: sender-identity overwrite dominates all three routing calls; on every path to a delivery either the target differs from the sender or the '
                        'reflect-to-self flag holds (path enumeration over the guard\'s short-circuit blocks); the routing callback always returns the session level so each session is hit once; the literal-lookup '
                        'fast path is entered only for matchers classified unique and looks up the unescaped key. Whether IsPatternUnique agrees with Match is the C15 table rule. '
